@@ -22,11 +22,11 @@ def proof_step(chk, prop):
         chk.violation('translator cannot read the constants it needs from /repo: ' + msg,
                       {'broken': 'tools/extract.py', 'detail': msg}, found_input=False)
         return False
-    registered = ('props/%s.v' % prop) in open(f'{COQ}/_CoqProject').read().split()
+    registered = wvlib.prop_files(prop)
     if not registered:
         chk.notes.append('no props/%s.v yet: correspondence only' % prop)
         return True
-    targets = ['props/%s.vo' % prop]
+    targets = [x + 'o' for x in registered]
     if os.path.exists(f'{COQ}/props/Pins.v'):
         pass
     ok, log, dt = coq_make(targets)
